@@ -161,7 +161,9 @@ class Cron(addons.AddonMainTask, block.SBlock):
                 # sleeptime: negative = after the alarm time; positive = before the alarm time
                 if step == 0:
                     self.log_debug("sleep until wakeup: %.3f sec", sleeptime)
-                if step > 1 or sleeptime < 0:
+                if step > 1 or sleeptime < 0 or sleeptime > SEC_PER_HOUR + _TT_ERROR:
+                    # (the next wakeup is never more than one hour away,
+                    # a longer delay means that the clock has jumped)
                     diff = abs(sleeptime)
                     if self.debug:
                         self.log_debug(
